@@ -450,6 +450,57 @@ def run(fx, rep):
         rep.check(got == SOURCES[name], 'R7', '%s/result-source' % name, b.loc(), 'returns %s' % (sorted(got) or 'only visited children / error placeholders'),
                   '%s returns nodes built by %s, expected %s: the tree no longer mirrors the grammar alternative' % (name, sorted(map(str, got)), sorted(SOURCES[name])))
     rep.floor('R7', 28)
+    # ---------------- R8 literals: elements, entries, fields in source order; key i paired with value i
+    rep.rule('R8', 'list / map / message literals, select and identifier nodes: elements in source order, key i paired with value i, operand and field taken from their own children')
+    REORDER = re.compile(r'::(rev|rfold|next_back|reverse|sort\w*|swap|insert|rotate_\w+|pop|swap_remove|dedup\w*|retain)$')
+    def builder(fn):
+        bs = [x for x in fx.bodies.values() if F.norm_path(x.path) == 'cel_parser::parser::Parser::' + fn]
+        if len(bs) != 1:
+            raise F.Lost('Parser::%s not found' % fn)
+        return bs[0]
+    def index_terms(b, pv):
+        out = {}
+        for bi, t in b.calls():
+            if F.norm_callee(t) == 'std::ops::Index::index':
+                base = '|'.join(terms(pv, t['args'][0]))
+                out.setdefault(base, set()).update(terms(pv, t['args'][1]))
+        return out
+    for fn, want_push, counter_of, indexed in (
+            ('list_initializer_list', 'visit(arg1, item(arg2.elems).e)', None, ()),
+            ('map_initializer_list', 'IdedEntryExpr{next_id(arg1.helper, item(enumerate(arg2.cols)).1), MapEntry{MapEntryExpr{visit(arg1, arg2.keys[?]), visit(arg1, arg2.values[?]), const(False)}}}', 'arg2.cols', ('arg2.keys', 'arg2.values')),
+            ('field_initializer_list', 'IdedEntryExpr{next_id(arg1.helper, arg2.cols[?]), StructField{StructFieldExpr{get_text(escapeIdent(item(enumerate(arg2.fields)).1)), visit(arg1, arg2.values[?]), const(False)}}}', 'arg2.fields', ('arg2.cols', 'arg2.values'))):
+        b = builder(fn)
+        rep.analysed(b, calls=sum(1 for _ in b.calls()))
+        pv = F.Prov(b)
+        pushes = [terms(pv, t['args'][1]) for bi, t in b.calls() if (F.norm_callee(t) or '').endswith('Vec::push')]
+        rep.check(pushes == [[want_push]], 'R8', '%s/appends-in-source-order' % fn, b.loc(), 'push(%s)' % want_push[:80],
+                  '%s appends %s, expected one push of %s' % (fn, pushes, want_push))
+        ro = sorted({F.norm_callee(t) for bi, t in b.calls() if REORDER.search(F.norm_callee(t) or '')})
+        rep.check(not ro, 'R8', '%s/no-reordering' % fn, b.loc(), 'forward iteration, append only', '%s reorders or drops elements with %s' % (fn, ro))
+        if counter_of:
+            ix = index_terms(b, pv)
+            want_ix = {'item(enumerate(iter(%s))).0' % counter_of, 'item(enumerate(%s)).0' % counter_of}
+            okk = set(ix) == set(indexed) and all(v and v <= want_ix for v in ix.values())
+            rep.check(okk, 'R8', '%s/same-index-for-key-and-value' % fn, b.loc(), '%s all indexed by the loop counter' % (sorted(ix),),
+                      '%s indexes %s: every per-entry child must be taken at the loop counter of %s (key i with value i)' % (fn, {k: sorted(v) for k, v in ix.items()}, counter_of))
+    for name, adt, want in (('visit_Select', 'SelectExpr', {'operand': 'visit(arg1, member(arg2))', 'field': 'get_text(arg2.id)', 'test': 'const(False)'}),
+                            ('visit_CreateList', 'ListExpr', {'elements': 'default()|list_initializer_list(arg1, arg2.elems)'}),
+                            ('visit_CreateStruct', 'MapExpr', {'entries': 'default()|map_initializer_list(arg1, arg2.entries)'})):
+        b = visitor(fx, name)
+        pv = F.Prov(b)
+        ag = [st for _, _, st in b.stmts() if st['k'] == 'Assign' and st['rv']['k'] == 'Aggregate' and (st['rv'].get('adt') or '').endswith('ast::' + adt)]
+        got = {k: '|'.join(terms(pv, o)) for k, o in zip(ag[0]['rv'].get('fields') or [], ag[0]['rv']['ops'])} if len(ag) == 1 else None
+        rep.check(got == want, 'R8', '%s/%s-fields' % (name, adt), b.loc(), str(got), '%s builds %s as %s, expected %s' % (name, adt, got, want))
+    b = visitor(fx, 'visit_CreateMessage')
+    pv = F.Prov(b)
+    ag = [st for _, _, st in b.stmts() if st['k'] == 'Assign' and st['rv']['k'] == 'Aggregate' and (st['rv'].get('adt') or '').endswith('ast::StructExpr')]
+    ents = set(terms(pv, ag[0]['rv']['ops'][(ag[0]['rv'].get('fields') or ['type_name', 'entries']).index('entries')])) if len(ag) == 1 else set()
+    rep.check(ents == {'field_initializer_list(arg1, arg2.entries)', 'new()'}, 'R8', 'visit_CreateMessage/entries', b.loc(), 'entries = field_initializer_list(entries)', 'message literal entries are %s' % sorted(ents))
+    b = visitor(fx, 'visit_Ident')
+    pv = F.Prov(b)
+    ag = [st for _, _, st in b.stmts() if st['k'] == 'Assign' and st['rv']['k'] == 'Aggregate' and (st['rv'].get('adt') or '').endswith('ast::Expr') and st['rv'].get('variant') == 'Ident']
+    rep.check(len(ag) == 1 and terms(pv, ag[0]['rv']['ops'][0]) == ['arg2.id.text'], 'R8', 'visit_Ident/name-is-token-text', b.loc(), 'Ident(id.text)', 'identifier node is not built from the token text')
+    rep.floor('R8', 13)
     rep.floor('R5', 30)
     # ---------------- R6
     from . import c10
